@@ -338,7 +338,7 @@ def run_property(prop_id, spec, tier, seed=0, only_unit=None, keep=False, verbos
         # longest first is unknown; keep shuffled
         results = []
         t0 = time.time()
-        results = run_jobs(jobs, int(os.environ.get('VERIF_JOB_TIMEOUT', '1500' if tier == 'quick' else '7200')))
+        results = run_jobs(jobs, int(os.environ.get('VERIF_JOB_TIMEOUT', '1500' if tier == 'quick' else '2700')))
         say('[%s] %d jobs done in %.1fs' % (prop_id, len(jobs), time.time() - t0))
         if os.environ.get('VERIF_DUMP_JOBS'):
             json.dump([dict(tag=x['tag'], fixed=x['fixed'], ok=x['ok'], wall=round(x.get('wall', 0), 1), err=(x.get('error') or '')[:80]) for x in results], open(os.environ['VERIF_DUMP_JOBS'], 'w'))
